@@ -3074,6 +3074,150 @@ def check_membership_uses_eq(mir):
     return out
 
 
+# ---------------------------------------------------------------------------------------------
+# ordering filters (C07): every comparator handed to safe_sort by sort / dictsort / groupby decides through
+# cmp_helper (with the filter's own case_sensitive / reverse flags) on every path, and sort does not reverse the
+# sorted list afterwards (descending order comes from the reversed comparator, which keeps the sort stable)
+# ---------------------------------------------------------------------------------------------
+def check_sort_comparators(mir):
+    out = []
+    for m in re.finditer(r'^fn (filters::builtins::(\w+))\(', mir, re.M):
+        name = m.group(2)
+        if name not in ('sort', 'dictsort', 'groupby'):
+            continue
+        text = function_text(mir, '^fn ' + re.escape(m.group(1)) + r'\(')
+        fn = parse_function(text)
+        closures = re.findall(r'safe_sort::<[^{]*(\{closure@[^}]*\})>', text)
+        t0 = time.time()
+        s_ = z3.Solver()
+        s_.set('timeout', 30000)
+        facts = []
+        notes = []
+        for i, c in enumerate(closures):
+            loc = re.search(r'closure@([^}]*)\}', c).group(1)
+            h = re.search(r'^fn [^\n]*\{closure#\d+\}\(_1: [^\n]*closure@%s\}' % re.escape(loc), mir, re.M)
+            if not h:
+                notes.append('comparator %s not found' % loc)
+                facts.append(z3.BoolVal(False))
+                continue
+            cfn = parse_function(mir[h.start():mir.index('\n}\n', h.start()) + 2])
+            adj, preds = cfg(cfn)
+            D = {b: z3.Int('O_%s_%d_%s' % (name, i, b)) for b in cfn['blocks'] if not cfn['blocks'][b]['cleanup']}
+            s_.add(D['bb0'] == 0)
+            has_lookup = any('get_path(' in (call_of(b['term'])[1] or '') for b in cfn['blocks'].values())
+            calls = 0
+            for bid, blk in cfn['blocks'].items():
+                if blk['cleanup']:
+                    continue
+                if blk['term'] == 'return;':
+                    s_.add(D[bid] == 1)
+                _, callee = call_of(blk['term'])
+                hit = bool(callee and re.match(r'cmp_helper\(', callee))
+                if hit:
+                    calls += 1
+                    args = re.findall(r'(?:(?:move|copy) (_\d+)|const (\w+))', callee[callee.find('('):])
+                    flags = args[2:4]
+                    const_flags = [j for j, (loc_, cst) in enumerate(flags) if cst]
+                    # groupby sorts ascending by definition: its reverse flag is the constant false
+                    allowed = {1} if name == 'groupby' else set()
+                    if set(const_flags) - allowed:
+                        notes.append('the comparator at %s passes a constant where the filter\'s %s flag belongs' % (loc, 'case_sensitive' if 0 in const_flags else 'reverse'))
+                        facts.append(z3.BoolVal(False))
+                # the fallback for an attribute that cannot be looked up: Equal
+                eq_fallback = has_lookup and any(re.match(r'_0 = (?:(?:std|core)::cmp::)?(?:Ordering::)?Equal;', st) for st in blk['stmts'])
+                for label, tgt in adj[bid]:
+                    if tgt in D:
+                        s_.add(D[tgt] == (1 if ((label == 'ok' and hit) or eq_fallback) else D[bid]))
+            if calls == 0:
+                notes.append('the comparator at %s never calls cmp_helper' % loc)
+                facts.append(z3.BoolVal(False))
+        if name == 'sort':
+            rev = [bid for bid, blk in fn['blocks'].items() if re.search(r'core::slice::<impl \[[^\]]*\]>::reverse\(|Vec::<[^>]*>::reverse\(|as Iterator>::rev\(', call_of(blk['term'])[1] or '')]
+            if rev:
+                notes.append('sort reverses the sorted list afterwards (%s): equal elements come out in reverse input order' % rev[0])
+                facts.append(z3.BoolVal(False))
+        if facts:
+            s_.add(z3.And(*facts))
+        r = s_.check()
+        dt = time.time() - t0
+        res = dict(function='filters::' + name, filter=name, comparators=len(closures), z3_s=round(dt, 3))
+        if not closures:
+            res.update(verdict='unknown', conflict='no safe_sort call found')
+        elif r == z3.sat:
+            res.update(verdict='sat')
+        elif r == z3.unsat:
+            res.update(verdict='unsat', conflict='; '.join(notes) or 'a path of a comparator reaches its return without deciding through cmp_helper')
+        else:
+            res.update(verdict=str(r))
+        out.append(res)
+    return out
+
+
+def run_sort_comparators(prop, tier, seed):
+    t0 = time.time()
+    ev = dict(engine='M', violations=[], known_hits=[], problems=[], coverage={})
+    try:
+        mir = dump_mir(REPO, os.path.join(BUILD, 'mir'))
+    except MirError as e:
+        ev['problems'].append('engine M: %s' % e)
+        return ev
+    results = check_sort_comparators(mir)
+    if len(results) < 3:
+        ev['problems'].append('engine M: sort / dictsort / groupby not all found in the MIR dump')
+    err = build_tool('render')
+    if err:
+        ev['problems'].append('engine M: render tool did not build')
+        return ev
+    items = [dict(k=1, s='b', n='1'), dict(k=0, s='A', n='2'), dict(k=1, s='a', n='3'), dict(k=0, s='B', n='4'), dict(k=1, s='b', n='5')]
+    reqs = []
+
+    def add(flt, src, ctx, want):
+        reqs.append((flt, dict(src=src, ctx=ctx), want))
+    for rev in (False, True):
+        for attr, key in (('k', lambda x: x['k']), ('s', lambda x: x['s'].lower())):
+            want = ''.join(x['n'] for x in sorted(items, key=key, reverse=rev))
+            add('sort', "{{ items|sort(attribute='%s', reverse=%s)|map(attribute='n')|join }}" % (attr, 'true' if rev else 'false'), dict(items=items), want)
+        words = ['b', 'A', 'a', 'B', 'c']
+        add('sort', '{{ w|sort(reverse=%s)|join }}' % ('true' if rev else 'false'), dict(w=words), ''.join(sorted(words, key=str.lower, reverse=rev)))
+        add('sort', '{{ w|sort(reverse=%s, case_sensitive=true)|join }}' % ('true' if rev else 'false'), dict(w=words), ''.join(sorted(words, reverse=rev)))
+    # groupby: a partition by (case-insensitive) key, groups in ascending key order, members in input order
+    groups = {}
+    for x in sorted(items, key=lambda x: x['s'].lower()):
+        groups.setdefault(x['s'].lower(), []).append(x)
+    want = ''.join('%s:%s;' % (k, ''.join(x['n'] for x in g)) for k, g in groups.items())      # the grouper of a case-insensitive grouping is the lowercased key
+    add('groupby', "{% for g in items|groupby('s') %}{{ g.grouper }}:{{ g.list|map(attribute='n')|join }};{% endfor %}", dict(items=items), want)
+    d = {'b': 1, 'A': 2, 'c': 0}
+    add('dictsort', '{% for k, v in d|dictsort %}{{ k }}{% endfor %}', dict(d=d), ''.join(sorted(d, key=str.lower)))
+    add('dictsort', "{% for k, v in d|dictsort(by='value', reverse=true) %}{{ k }}{% endfor %}", dict(d=d), ''.join(sorted(d, key=lambda k: d[k], reverse=True)))
+    inp = '\n'.join(json.dumps(q) for _, q, _ in reqs) + '\n'
+    p = subprocess.run([os.path.join(BUILD, 'native', 'debug', 'render')], input=inp, stdout=subprocess.PIPE, stderr=subprocess.PIPE, text=True, timeout=120)
+    outs = [json.loads(l) for l in p.stdout.split('\n') if l.strip()]
+    bad = {}
+    for (f, q, want), o in zip(reqs, outs):
+        if o.get('ok') != want:
+            bad.setdefault(f, []).append('%s renders %r, expected %r' % (q['src'], o.get('ok', o), want))
+    for r in results:
+        if r['verdict'] == 'sat':
+            continue
+        if r['verdict'] != 'unsat':
+            ev['problems'].append('engine M: %s: %s %s' % (r['function'], r['verdict'], r.get('conflict') or ''))
+            continue
+        if r['filter'] in bad:
+            rp = os.path.join(nativelib.replay_dir(), '%s-M-sortcmp-%s.json' % (prop, r['filter']))
+            json.dump(dict(engine='M', kind='safesrc', property=prop, mir_finding=r, requests=[[q, w] for f, q, w in reqs if f == r['filter']],
+                           how='bin/check %s --replay %s' % (prop, rp)), open(rp, 'w'), indent=1)
+            ev['violations'].append(dict(replay=rp, failed=[dict(desc='%s: %s; natively: %s' % (r['function'], r['conflict'], bad[r['filter']][0][:260]), loc='minijinja/src/filters.rs %s (MIR)' % r['filter'])]))
+        else:
+            ev['problems'].append('engine M: %s: %s, but every native render of that filter is as specified' % (r['function'], r['conflict']))
+    for f, msgs in bad.items():
+        if all(r['verdict'] == 'sat' for r in results if r['filter'] == f):
+            ev['problems'].append('engine M: filter %s orders wrongly natively (%s) although its comparators decide through cmp_helper' % (f, msgs[0][:240]))
+    log('[%s] engine M (ordering filters): %s; native: %d renders, %d filters misbehaving' % (prop, ' '.join('%s=%s' % (r['filter'], r['verdict']) for r in results), len(outs), len(bad)))
+    ev['coverage'] = dict(queries=len(results), results=results, native_scenarios=len(outs), native_scenarios_failing=len(bad), check='ordering_filters')
+    ev['wall_s'] = round(time.time() - t0, 1)
+    return ev
+
+
 def run_membership(prop, tier, seed):
     t0 = time.time()
     ev = dict(engine='M', violations=[], known_hits=[], problems=[], coverage={})
